@@ -29,6 +29,15 @@ def _lens_ok(n0, n1, n2, n3):
     return ok
 
 
+def _keys_ok(*ks):
+    if not P("pool", False):
+        return True
+    ok = True
+    for k in ks:
+        ok = ok and 0 <= k < len(VALUE_POOL)
+    return ok
+
+
 def _params_ok(p0, p1, p2):
     t = P("tool")
     if t == "islice":
@@ -36,14 +45,28 @@ def _params_ok(p0, p1, p2):
     return True
 
 
+VALUE_POOL = (None, 0, 1)
+
+
+def _pool_pick(sel):
+    for i in range(len(VALUE_POOL) - 1):
+        if sel == i:
+            return VALUE_POOL[i]
+    return VALUE_POOL[len(VALUE_POOL) - 1]
+
+
 def build_data(keys, lens, p, b, S, extra=None):
     srcs = []
     ki = 0
+    pool = P("pool", False)  # items are None / falsy plain values chosen by the (symbolic) keys
     for i in range(S):
         n = lens[i]
         row = []
         for j in range(n):
-            row.append(Item(keys[ki % len(keys)], "%d.%d" % (i, j)))
+            if pool:
+                row.append(_pool_pick(keys[ki % len(keys)]))
+            else:
+                row.append(Item(keys[ki % len(keys)], "%d.%d" % (i, j)))
             ki += 1
         srcs.append(row)
     d = Data(srcs, p, b, extra)
@@ -81,6 +104,7 @@ def h_tool(k0: int, k1: int, k2: int, k3: int, k4: int, k5: int, k6: int, k7: in
     """
     pre: _lens_ok(n0, n1, n2, n3)
     pre: _params_ok(p0, p1, p2)
+    pre: _keys_ok(k0, k1, k2, k3, k4, k5, k6, k7, k8, k9, k10, k11)
     post: _[0]
     post: not _[1]
     """
@@ -179,6 +203,12 @@ def h_accumulate_add(a0: int, a1: int, a2: int, a3: int, a4: int, n: int, init: 
     vals = []
     for j in range(n):
         vals.append(src[j])
+    if P("kind", "int") == "list":
+        # mutable items: the default reduction must not modify them (x + y, not x += y)
+        vals = [[v] for v in vals]
+        init = [init]
+        snap = [list(v) for v in vals]
+        init_snap = list(init)
     Wa = World("a")
     D = Driver(Wa, sync_only=True)
     try:
@@ -203,7 +233,17 @@ def h_accumulate_add(a0: int, a1: int, a2: int, a3: int, a4: int, n: int, init: 
             for x, y in zip(out, exp):
                 if not (x == y):  # decided by the solver for all integer values
                     ok = fail("accumulate:running-sum-differs", (out, exp)) and ok
-    return finish(ok, len(vals) >= 2, ("accumulate_add", len(vals), bool(has_init)))
+    if P("kind", "int") == "list":
+        for v, sv in zip(vals, snap):
+            if len(v) != len(sv):
+                ok = fail("accumulate:input-item-mutated", (vals, snap)) and ok
+        if len(init) != len(init_snap):
+            ok = fail("accumulate:initial-mutated") and ok
+        for i in range(len(out)):
+            for j in range(i):
+                if out[i] is out[j] and len(out) > 1:
+                    ok = fail("accumulate:same-object-yielded-twice") and ok
+    return finish(ok, len(vals) >= 2, ("accumulate_add", P("kind", "int"), len(vals), bool(has_init)))
 
 
 def _tee_pre(n, m, o0, o1, o2, o3, o4, o5, o6, o7):
@@ -381,6 +421,10 @@ def jobs(tier):
             for uk in (False, True):
                 add("h_merge", T, S=len(L), N=max(L), L=L, rev=rev, usekey=uk)
     add("h_accumulate_add", T, N=5, fl="agen")
+    add("h_accumulate_add", T, N=3, fl="agen", kind="list")
+    for t, S_ in (("zip", 2), ("zip_longest", 2), ("chain", 2), ("islice", 1), ("batched", 1), ("pairwise", 1), ("enumerate0", 1), ("cycle", 1), ("compress", 2), ("filter_none", 1), ("filterfalse_none", 1), ("iter_sentinel", 1)):
+        kw = {"spec": True, "form": 2} if t in ("islice", "batched") else {}
+        add("h_tool", T, tool=t, S=S_, N=(2 if S_ == 2 else 3), pool=True, **kw)
     add("h_accumulate_add", T, N=5, fl="list")
     add("h_tee", T, C=2, N=3, M=(6 if q else 8))
     add("h_tee", T, C=3, N=(2 if q else 3), M=(5 if q else 8))
@@ -395,5 +439,6 @@ OUTSIDE = [
     "lengths / numbers of sources above the bound",
     "negative islice arguments, accumulate(initial=None)",
     "items with inconsistent or partial comparisons (NaN, sets)",
+    "None / falsy plain items are covered for the tools that do not call a predicate or compare items (pool jobs)",
     "default accumulate (operator.add) over non-int items (ints: running sums proved equal for all integer values)",
 ]
